@@ -158,7 +158,7 @@ var c12Model = porcupine.Model{
 			fmt.Sscan(in.Arg, &s.Cfg)
 			s.ICfg, s.IDisk = s.Cfg, s.Disk
 			return true, s
-		case "WriteSpec", "RemoveSpec", "GetErrors", "GetSpecErrors", "GetSpecDirErrors", "ListClasses", "GetVendorSpecs", "ToggleDir":
+		case "WriteSpec", "RemoveSpec", "GetErrors", "GetSpecErrors", "GetSpecDirErrors", "ListClasses", "GetVendorSpecs", "ToggleDir", "SetSpecValidator":
 			return true, s
 		}
 		return out == c12Expect(in.Kind, in.Arg, s), s
@@ -179,6 +179,10 @@ func c12Spec(tag string, devs ...string) *specs.Spec {
 	}
 	return s
 }
+
+type acceptAll struct{}
+
+func (acceptAll) Validate(*specs.Spec) error { return nil }
 
 func siteSig(id int) string {
 	s := simrt.Site(id)
@@ -315,7 +319,7 @@ func c12(r *core.Run) {
 		for i := 0; i < nops; i++ {
 			src.Begin("op")
 			var p planned
-			switch src.Pick(3, 3, 3, 2, 2, 1, 1, 1, 1, 1, 1, 2, 1, 3, 2, 1) {
+			switch src.Pick(3, 3, 3, 2, 2, 1, 1, 1, 1, 1, 1, 2, 1, 3, 2, 1, 1) {
 			case 0:
 				p = planned{"ListDevices", "", func() string { return strings.Join(e.cache.ListDevices(), ",") }}
 			case 1:
@@ -420,6 +424,12 @@ func c12(r *core.Run) {
 					if err := e.cache.WriteSpec(wspec[k], "vendor.com-gpu"); err != nil {
 						return "error:" + err.Error()
 					}
+					return ""
+				}}
+			case 16:
+				p = planned{"SetSpecValidator", "", func() string {
+					// installing (the same, accepting) validator takes the validator lock for writing
+					cdi.SetSpecValidator(acceptAll{})
 					return ""
 				}}
 			case 15:
